@@ -48,6 +48,7 @@ func NewCollection(options ...Option) *Collection {
 
 // Get will find the entry with the given ID. If no such entry exists, returns false.
 func (c *Collection) Get(id string, opts ...ReadOption) (proto.Message, bool) {
+	defer verifhook.Yield("coll.get") // deferred first: runs once the entry has been read and the read lock released
 	if c.idInterceptor != nil {
 		id = c.idInterceptor(id)
 	}
